@@ -80,6 +80,8 @@ func (l *List[T]) RemoveValue(v T) bool {
 
 			return true
 		}
+		prev = cur
+		cur = cur.next
 	}
 	return false
 }
